@@ -285,6 +285,7 @@ func init() {
 		checkQuantifier(r, prog, a, "c06")
 		checkScan(r, prog, a, "c06")
 		checkWithLocalVariable(r, prog, "c06")
+		checkQuantifierAbsent(r, prog, a, "c06") // an absent collection: all true, any false
 		r.importing = "C07"
 		checkSelectorGrammar(r, ga, "c07")
 		checkSpellingBlind(r, prog, a, "c07")
